@@ -49,6 +49,22 @@ CHECKS = {
          "With a recording Printer, every generated build's status lines are compared with what the call log shows happened to each target (command ran / renamed in from cache / untouched); failed, cancelled and out-of-scope rules must get no line and the number of reported failures must equal failing rules + missing leaves of the reference evaluation.",
          "Banner text compared after trimming; colours ignored. Scheduled scenarios are added by the C03-C06 engine.",
          "property-based testing: printed output vs call-log oracle over generated histories", "2 C20"),
+ "C03": ("exploration",
+         "Each generated scenario (graph x initial state x final build) is run from the same forked state under two serial schedules, every single-preemption schedule of the deterministic scheduler (sampled when over budget) and generated preemption-bounded / random-walk / PCT schedules; at every command start each declared source must hold its reference content and must not be modified afterwards.",
+         "Interleavings are explored at yield points only (channel ops, spawn/join/exit, every System call); commands are atomic. Exhaustive only for single preemptions of small scenarios.",
+         "property-based testing over schedules: controlled deterministic scheduler, single-preemption enumeration + generated schedules, oracle at command entry", "2 C03"),
+ "C04": ("exploration",
+         "Generated placements of failing rules (non-zero exit, ungenerated target, flag-conditional, content-conditional) and missing leaves, under the C03 schedule set: the build must report exactly one matching error per failed rule / missing file, run no descendant, bring every independent rule up to date, and after the cause is repaired run the failed rules again and satisfy C01.",
+         "A failing command writes nothing; error order is not compared; CommandExecutedButErrored carries no name, so it is matched by count.",
+         "property-based testing: fault placement x schedules against the reference evaluation, then repair-and-rebuild", "2 C04"),
+ "C05": ("exploration",
+         "Every run of every scheduled scenario (build and clean, with failures, cancellations and goal-restricted graphs) must come back: the scheduler shim knows every thread's blocked-on relation, so 'all unfinished threads blocked' is reported as a deadlock structurally; panics in any thread and SenderError/ReceiverError/Weird results are violations.",
+         "Deadlock is decided from the complete blocked-on relation of the shim, never by a timeout. Liveness beyond the explored schedules is not established.",
+         "property-based testing over schedules: deterministic scheduler with structural deadlock detection, single-preemption enumeration + random/PCT", "2 C05"),
+ "C06": ("exploration",
+         "Scenarios biased toward shared cache entries (byte-identical outputs of unrelated rules, cleaned and reverted states) are run under many schedules from one forked state; verdict and the bytes/existence of every workspace file must equal the serial run, and the cache must stay content-addressed with nothing lost on every run.",
+         "Only the observables the property names are compared (not permissions, mtimes, which rule won a restore, or execution counts).",
+         "property-based testing: differential across schedules of the same scenario (serial baseline vs enumerated/generated schedules)", "2 C06"),
 }
 
 NOT_YET = {}
